@@ -10,10 +10,10 @@ RULE = ("spec: TLC explores Flow.tla / Parallel.tla (templates transcribed step 
         "'slow' scenario per user function); every execution's stamped events are checked by the monitor DirSys.tla")
 
 
-def directive(prop, q=(160, 100, 6), t=(1600, 1000, 12), par_exec=0):
+def directive(prop, q=(160, 100, 6), t=(800, 500, 8), par_exec=0):
     def check(c):
         nflow, npar, nscen = q if c.quick else t
-        rounds = 1 if c.quick else 4
+        rounds = 1 if c.quick else 2
         # design level: the templates as transcribed in Flow.tla / Parallel.tla never make the monitor record a
         # violation, for every outcome / schedule / concurrency / cancellation instant of small programs
         if c.quick:
